@@ -215,6 +215,9 @@ func (kgdb *KVInterfaceGDB) DelVertex(id string) error {
 	})
 
 	return kgdb.kvg.kv.Update(func(tx kvi.KVTransaction) error {
+		if !tx.HasKey(vid) {
+			return fmt.Errorf("Vertex Not Found")
+		}
 		if err := tx.Delete(vid); err != nil {
 			return err
 		}
